@@ -19,12 +19,34 @@ state is consulted.  The monitor keeps, per account, a small ledger:
   by the end of the record; after its time limit it no longer excludes others;
 * `answered` — the login requests answered so far.
 
+Verdicts: the four safety clauses (`doubleLoad`, `reconnectWrongState`, `txOverlap`, `answeredTwice`) and
+`refusedNoHolder`, the "until it completes or its time limit passes" side: a logout request on an existing
+record, a line-switch request of a logged-in account that is not in a line switch, a login for an account
+the centre has nothing on — refused although no unexpired transaction holds the account.  (A login or a line
+switch refused because an earlier line switch never ended is NOT a verdict: the code blocks the account
+then, see `unfinished_switch_blocks_account` in `Props/C18.lean`.)
+
 The same monitor is (a) the subject of the theorems in `Props/C18.lean` (run on the
 model's trace for every history) and (b) executed by `modeld_c18 spec` on what the real
 code did.
 -/
 namespace Cell2v.Center.Spec
 open Cell2v.Center
+
+/-! ### the time limits of the property
+Written out here in milliseconds, independently of the constants of the model (`Model/Center.lean`,
+which mirror `define.go` / `playermgr.go`): the refinement proof needs them to agree (`*_eq` below, by `rfl`),
+so a constant changed on one side only — in the model to follow a changed implementation, or here — breaks
+the proof instead of silently moving the property. -/
+def loginLimit : Nat := 120000     -- an authorised load must be confirmed (logined) within 2 min
+def logoutLimit : Nat := 1800000   -- an accepted logout must complete within 30 min
+def txLimit : Nat := 180000        -- reconnect / logout / line-switch transactions hold the account for at most 3 min
+def loginTxLimit : Nat := 300000   -- the login transaction for at most 5 min
+
+@[simp] theorem loginLimit_eq : loginLimit = LoginTimeout := rfl
+@[simp] theorem logoutLimit_eq : logoutLimit = LogoutTimeout := rfl
+@[simp] theorem txLimit_eq : txLimit = LockTimeout := rfl
+@[simp] theorem loginTxLimit_eq : loginTxLimit = LockLoginTimeout := rfl
 
 inductive Phase | auth (t0 : Nat) | inGame | out (t1 : Nat)
   deriving DecidableEq, Repr
@@ -48,7 +70,9 @@ inductive Viol
   | reconnectWrongState -- reconnect authorised for an account not logged-in, or whose connection was not reported closed
   | txOverlap           -- a transaction accepted while another one holds the account within its time limit
   | answeredTwice       -- a login request answered a second time
-  | refusedNoHolder     -- a logout request on an existing record refused although no unexpired transaction holds the account
+  | refusedNoHolder     -- a logout request on an existing record refused although no unexpired transaction holds the account,
+                        -- or a line-switch request of a logged-in account that is not in a line switch refused likewise,
+                        -- or a login answered AlreadyOnline / SystemBusy for an account the centre has nothing on (no load, no lingering record)
   deriving DecidableEq, Repr
 
 def Viol.signature : Viol → String
@@ -66,6 +90,13 @@ def heldTx (tx : Option (Reason × Nat)) (now : Nat) : Bool :=
 
 def held (l : Ledger) (now : Nat) : Bool := heldTx l.tx now
 
+/-- the open transaction (expired or not) is a line switch: the account is between an accepted line-switch
+request and its end -/
+def inSwitchTx (tx : Option (Reason × Nat)) : Bool :=
+  match tx with
+  | some (.switchLine, _) => true
+  | _ => false
+
 def closeTx (l : Ledger) (k : Reason) : Ledger :=
   match l.tx with
   | some (k', _) => if k' = k then { l with tx := none } else l
@@ -79,12 +110,12 @@ def ackStep (now : Nat) (l : Ledger) (id n : Nat) (c : Code) : Ledger × List Vi
   | .ok =>
     let v2 := if l.entry.live then [Viol.doubleLoad] else []
     let v3 := if held l now then [Viol.txOverlap] else []
-    ({ l with entry := .open (.auth now), closedRep := decide (n = 0), tx := some (.login, now + LockLoginTimeout) }, v1 ++ v2 ++ v3)
+    ({ l with entry := .open (.auth now), closedRep := decide (n = 0), tx := some (.login, now + loginTxLimit) }, v1 ++ v2 ++ v3)
   | .re _ =>
     let v2 := if l.entry = .open .inGame && l.closedRep then [] else [Viol.reconnectWrongState]
     let v3 := if held l now then [Viol.txOverlap] else []
-    ({ l with closedRep := decide (n = 0), tx := some (.reonline, now + LockTimeout) }, v1 ++ v2 ++ v3)
-  | .already | .busy => (l, v1)
+    ({ l with closedRep := decide (n = 0), tx := some (.reonline, now + txLimit) }, v1 ++ v2 ++ v3)
+  | .already | .busy => (l, v1 ++ (if l.entry = .none then [Viol.refusedNoHolder] else []))
 
 def evStep (now : Nat) (l : Ledger) : Ev → Ledger × List Viol
   | .ack id n c => ackStep now l id n c
@@ -107,15 +138,15 @@ def opStep (now : Nat) (l : Ledger) (op : Op) (ret : Option Bool) : Ledger × Li
   | .logoutReq _ =>
     if l.entry = .none then (l, [])
     else if ret = some true then
-      ({ l with entry := .open (.out now), tx := some (.logout, now + LockTimeout) }, if held l now then [.txOverlap] else [])
+      ({ l with entry := .open (.out now), tx := some (.logout, now + txLimit) }, if held l now then [.txOverlap] else [])
     else (l, if held l now then [] else [.refusedNoHolder])
   | .logoutDone _ => if l.entry = .none then (l, []) else (closeTx { l with entry := .lingering } .logout, [])
   | .abnormal _ => if l.entry = .none then (l, []) else ({ l with entry := .lingering }, [])
   | .swBegin _ =>
     if l.entry = .none then (l, [])
     else if ret = some true then
-      ({ l with tx := some (.switchLine, now + LockTimeout) }, if held l now then [.txOverlap] else [])
-    else (l, [])
+      ({ l with tx := some (.switchLine, now + txLimit) }, if held l now then [.txOverlap] else [])
+    else (l, if l.entry = .open .inGame && !held l now && !inSwitchTx l.tx then [.refusedNoHolder] else [])
   | .swEnd _ => if ret = some true then (closeTx l .switchLine, []) else (l, [])
   | _ => (l, [])
 
@@ -124,8 +155,8 @@ completed; the lingering record of a closed load goes away.  The end of the reco
 its transaction. -/
 def tickLedger (now : Nat) (l : Ledger) : Ledger :=
   let gone := match l.entry with
-    | .open (.auth t0) => decide (now ≥ t0 + LoginTimeout)
-    | .open (.out t1) => decide (now ≥ t1 + LogoutTimeout)
+    | .open (.auth t0) => decide (now ≥ t0 + loginLimit)
+    | .open (.out t1) => decide (now ≥ t1 + logoutLimit)
     | .lingering => true
     | _ => false
   if gone then { l with entry := .none, tx := none } else l
@@ -144,6 +175,9 @@ def monStep (m : Mon) (st : Step) : Mon × List Viol :=
   match st.op with
   | .tick => ({ m with led := fun u => tickLedger m.now (m.led u) }, [])
   | .adv ms => ({ m with now := m.now + ms }, [])
+  | .advT ms =>
+    ({ m with led := fun u => (firings m.now (m.now + ms)).foldl (fun l t => tickLedger t l) (m.led u),
+              now := m.now + ms }, [])
   | op =>
     match op.uid with
     | some u =>
